@@ -220,7 +220,7 @@ def subchecks(tier):
             min_nontrivial=20,
         ),
         Given("ledger_replug", replug_cases(), prop_replug, quick=800, thorough=60000, floors={"ev_object_used_again": 0.185, "reset_between_sessions": 0.185}, jobs_quick=2),
-        Given("ledger_stochastic", stochastic_cases(), prop_stochastic, quick=200, thorough=15000, floors={"early_departure_swap": 0.1, "queue_admission": 0.3}),
+        Given("ledger_stochastic", stochastic_cases(), prop_stochastic, quick=200, thorough=15000, floors={"early_departure_swap": 0.088, "queue_admission": 0.259}),
     ]
 
 
